@@ -1841,6 +1841,11 @@ sexp sexp_expt_op (sexp ctx, sexp self, sexp_sint_t n, sexp x, sexp e) {
   sexp_gc_var1(tmp);
 #endif
 #if SEXP_USE_COMPLEX
+#if SEXP_USE_RATIOS
+  if (sexp_complexp(x) && sexp_fixnump(e) && sexp_exactp(sexp_complex_real(x))
+      && sexp_exactp(sexp_complex_imag(x)))   /* exact base, exact integer exponent: exact result */
+    return sexp_generic_expt(ctx, x, sexp_unbox_fixnum(e));
+#endif
   if (sexp_complexp(x) || sexp_complexp(e))
     return sexp_complex_expt(ctx, x, e);
 #endif
